@@ -10,6 +10,30 @@ from .algebra import Normalizer, bool_key, simplify, equivalent, spec_guard, ato
 from .loader import Func, Program
 
 
+class _Probe:
+    """Records the verdict calls of one attempt so that only the chosen attempt reaches the real context."""
+
+    def __init__(self, ctx):
+        self.ctx = ctx
+        self.calls = []
+
+    def violated(self, *a, **k):
+        self.calls.append(("violated", a, k))
+
+    def undecided(self, *a, **k):
+        self.calls.append(("undecided", a, k))
+
+    def check(self, *a, **k):
+        self.calls.append(("check", a, k))
+
+    def ok(self, *a, **k):
+        self.calls.append(("ok", a, k))
+
+    def replay(self):
+        for name, a, k in self.calls:
+            getattr(self.ctx, name)(*a, **k)
+
+
 def raise_guards(f: Func, N: Normalizer, pm=None):
     pm = pm or astx.parents(f.node)
     out = []
@@ -22,10 +46,28 @@ def obligation(ctx, f: Func, label: str, spec_src: str, exc: str, *, rename=None
                forall: bool = False, before_super: bool = False, before_call: Optional[str] = None,
                inline: bool = False, loop_iter_suffix: str = "ballots", extra_env=None, allow_context: bool = False):
     """The union of the `raise exc` sites of f whose guard shares an atom with the spec must be
-    equivalent to the spec, modulo the conditions of raises that precede them (early exits)."""
+    equivalent to the spec, modulo the conditions of raises that precede them (early exits).
+    Tried first on the guards as written, then with single-assignment locals inlined (a test on
+    `ids = df.iloc[:, id_col]` is a test on `df.iloc[:, id_col]`); the verdict is the better of the two."""
+    if inline is False:
+        probe = _Probe(ctx)
+        if obligation(probe, f, label, spec_src, exc, rename=rename, int_atoms=int_atoms, forall=forall, before_super=before_super, before_call=before_call,
+                      inline=0, loop_iter_suffix=loop_iter_suffix, extra_env=extra_env, allow_context=allow_context):
+            probe.replay()
+            return True
+        probe2 = _Probe(ctx)
+        if obligation(probe2, f, label, spec_src, exc, rename=rename, int_atoms=int_atoms, forall=forall, before_super=before_super, before_call=before_call,
+                      inline=1, loop_iter_suffix=loop_iter_suffix, extra_env=extra_env, allow_context=allow_context):
+            probe2.replay()
+            return True
+        probe.replay()
+        return False
+    inline = bool(inline)
     N = Normalizer(f.node, rename=rename, inline=inline, int_atoms=int_atoms, extra_env=extra_env)
     pm = astx.parents(f.node)
-    spec = simplify(Normalizer(None, None, inline=False, int_atoms=int_atoms).guard(ast.parse(spec_src, mode="eval").body))
+    # in the inlining attempt the names the spec shares with the function (e.g. `df`) expand the same way on both sides
+    spec_norm = Normalizer(f.node, None, inline=True, int_atoms=int_atoms, extra_env=extra_env) if inline else Normalizer(None, None, inline=False, int_atoms=int_atoms)
+    spec = simplify(spec_norm.guard(ast.parse(spec_src, mode="eval").body))
     satoms = set(atoms_of(spec))
     allr = raise_guards(f, N, pm)
     scored = []
